@@ -203,12 +203,27 @@ W_UNPRODUCTIVE = {  # a weighted rule next to a production that cannot be comple
 }
 
 
+W_STANDALONE = {  # a weight above 1 on a class that is no production of any rule (a concrete class used as a field type)
+    "name": "w_standalone_class",
+    "abstracts": [{"name": "Root", "parent": None, "style": "abc"}],
+    "prods": [
+        {"name": "A", "parent": "Root", "fields": [], "weight": 2},
+        {"name": "B", "parent": "Root", "fields": [["x", ["ref", "Pair"]]]},
+        {"name": "Pair", "parent": None, "fields": [["k", ["ann", ["int"], ["IntRange", 0, 2]]]], "weight": 5},
+    ],
+    "start": "Root",
+}
+
+
 def run_case(case, rec):
     HOLDER["rec"] = rec
     desc = grammars.gen_descriptor(case["seed"] * 7919 + case["i"], "weighted")
     if case["i"] % 25 == 7:
         desc = dict(TWO_BASES)
         rec.count("hierarchies_with_a_two_base_production")
+    if case["i"] % 25 == 23:
+        desc = dict(W_STANDALONE)
+        rec.count("hierarchies_with_a_weighted_standalone_class")
     if case["i"] % 25 == 19:
         desc = dict(W_UNPRODUCTIVE)
         rec.count("hierarchies_with_an_uncompletable_sibling")
